@@ -20,7 +20,8 @@ Outcomes == {"ok", "caught", "sub", "other", "uncaught", "cancelled", "base"}
    "uncaught" : an Exception subclass no form but "all" (catching=Exception) names
    "cancelled": asyncio.CancelledError;  "base": another BaseException subclass *)
 
-Forms == {"class", "tuple", "set", "tuple_with_cancelled", "all", "bare"}
+Forms == {"class", "tuple", "set", "tuple_with_cancelled", "related", "all", "bare"}
+(* "related": a tuple naming a class AND one of its subclasses (E1, E1Sub) - the wider one decides *)
 Delays == {"none", "int", "float", "fn"}
 Modes == {"sync", "async"}
 
@@ -39,7 +40,7 @@ Configs == { c \in [limit : 1..MaxLimit, form : Forms, delay : Delays, mode : Mo
                c.form = "bare" => (c.limit = 1 /\ c.delay = "none") }
 
 Caught(c, o) ==
-  CASE c.form = "class" -> o \in {"caught", "sub"}
+  CASE c.form \in {"class", "related"} -> o \in {"caught", "sub"}
     [] c.form \in {"tuple", "set", "tuple_with_cancelled"} -> o \in {"caught", "sub", "other"}
     [] OTHER -> o \in {"caught", "sub", "other", "uncaught"}   \* all / bare: every Exception
 
